@@ -33,6 +33,8 @@ type hrReq struct {
 	Body      int // -1 none, else length
 	Chunked   bool
 	Upgrade   bool // carries websocket upgrade headers
+	// BadChunk: the (chunked) body is malformed after this many bytes: the read fails, the connection stays (-1: no)
+	BadChunk int
 }
 
 type hrCase struct {
@@ -60,6 +62,7 @@ func genHR(rt *rapid.T, knownOctet, knownPlain bool, col *Collector) hrCase {
 			Body:      rapid.SampledFrom([]int{-1, 0, 1, 5, 5, 300, 70000}).Draw(rt, l+".body"),
 			Chunked:   rapid.IntRange(0, 3).Draw(rt, l+".chunked") == 0,
 			Upgrade:   rapid.IntRange(0, 5).Draw(rt, l+".upgrade") == 0,
+			BadChunk:  rapid.SampledFrom([]int{-1, -1, -1, 0, 1, 3}).Draw(rt, l+".badChunk"),
 		}
 		if knownPlain && r.Sid == "own" && c.Sess != "polling" && c.Sess != "jsonp" && !r.Upgrade {
 			col.Exclude("plain HTTP request naming a session that is not on polling (known finding " + sigPlainToWS + ")")
@@ -142,6 +145,12 @@ func runHR(c hrCase) (fail string, stats map[string]bool) {
 			if r.Chunked {
 				spec.ContentLength = -1
 			}
+			if r.BadChunk >= 0 && r.Body > r.BadChunk {
+				spec.ContentLength = -1
+				spec.FailBodyAt = r.BadChunk
+				spec.BodyErrIsEncoding = true
+				stats["malformed-chunked-body"] = true
+			}
 			stats["request-with-body"] = true
 			if r.Sid == "own" && r.Body > 0 {
 				stats["body-sent-to-a-"+c.Sess+"-session"] = true
@@ -166,6 +175,14 @@ func runHR(c hrCase) (fail string, stats map[string]bool) {
 		}
 		if !snap.Responded && !snap.Hijacked {
 			stats["request-left-unanswered-while-the-client-waits"] = true
+		}
+	}
+	// a request whose body turned out malformed is still a request on a live connection: it is answered
+	for i, e := range exs {
+		if r := c.Reqs[i]; r.BadChunk >= 0 && r.Body > r.BadChunk {
+			if snap := e.Snap(); !snap.Responded && !snap.Hijacked {
+				return fmt.Sprintf("request #%d %+v: its chunked body is malformed (read error after %d bytes), the connection is alive, and the request was left without any answer", i, r, r.BadChunk), stats
+			}
 		}
 	}
 	// every client goes away
@@ -203,7 +220,7 @@ func runHR(c hrCase) (fail string, stats map[string]bool) {
 
 func TestC09HandlersReturn(t *testing.T) {
 	col := NewCollector("TestC09HandlersReturn",
-		"rapid: a session on polling/JSONP/websocket/webtransport or upgraded to websocket (revision 3/4) next to a bystander session, and 1-4 plain HTTP requests: method x transport parameter (polling/websocket/webtransport/unknown) x sid (the session's own, none, unknown) x content type (incl. application/octet-stream) x body (none, 0..70000 bytes, declared or chunked) x websocket upgrade headers; then every client goes away. The carrier follows net/http (checked against a real server by TestSelfCarrierDisconnect): a client going away is noticed only when the request has no body, the handler has read the body to its end, or a body read fails. oracle: no handler panics, every handler has returned once its client has gone, the bystander still round-trips a message, the named session closes at most once. non-trivial: a request with a body").Use(t)
+		"rapid: a session on polling/JSONP/websocket/webtransport or upgraded to websocket (revision 3/4) next to a bystander session, and 1-4 plain HTTP requests: method x transport parameter (polling/websocket/webtransport/unknown) x sid (the session's own, none, unknown) x content type (incl. application/octet-stream) x body (none, 0..70000 bytes, declared or chunked, or chunked and malformed after 0/1/3 bytes: the read fails while the connection stays) x websocket upgrade headers; then every client goes away. The carrier follows net/http (checked against a real server by TestSelfCarrierDisconnect): a client going away is noticed only when the request has no body, the handler has read the body to its end, or a body read fails. oracle: no handler panics, every handler has returned once its client has gone, the bystander still round-trips a message, the named session closes at most once. non-trivial: a request with a body").Use(t)
 	known, knownPlain := isKnown("C09", sigOctetUnanswered), isKnown("C09", sigPlainToWS)
 	rapid.Check(t, func(rt *rapid.T) {
 		c := genHR(rt, known, knownPlain, col)
@@ -225,7 +242,7 @@ func TestC09HandlersReturn(t *testing.T) {
 			rt.Fatalf("%v: %s", c, clipStr(res.Leak, 1500))
 		}
 	})
-	col.RequireClasses(t, "session.polling", "session.websocket", "session.webtransport", "session.up-websocket", "body-sent-to-a-polling-session", "body-sent-to-a-websocket-session", "body-sent-to-a-webtransport-session")
+	col.RequireClasses(t, "session.polling", "session.websocket", "session.webtransport", "session.up-websocket", "body-sent-to-a-polling-session", "body-sent-to-a-websocket-session", "body-sent-to-a-webtransport-session", "malformed-chunked-body")
 }
 
 // TestC09OctetFinding: deterministic demonstrations of the two repaired defects.
@@ -233,7 +250,7 @@ func TestC09OctetFinding(t *testing.T) {
 	col := NewCollector("TestC09OctetFinding", "deterministic: (a) revision-4 polling session; a data request with Content-Type application/octet-stream (1 byte, and 300 bytes chunked); (b) a websocket / webtransport / upgraded session and a plain HTTP POST naming it with its own transport and a body; the client then goes away; oracle of TestC09HandlersReturn. every case is non-trivial").Use(t)
 	for _, sess := range []string{"websocket", "webtransport", "up-websocket"} {
 		tr := strings.TrimPrefix(sess, "up-")
-		c := hrCase{Sess: sess, Rev: 4, Reqs: []hrReq{{Method: "POST", Transport: tr, Sid: "own", CT: "text/plain;charset=UTF-8", Body: 5}}}
+		c := hrCase{Sess: sess, Rev: 4, Reqs: []hrReq{{Method: "POST", Transport: tr, Sid: "own", CT: "text/plain;charset=UTF-8", Body: 5, BadChunk: -1}}}
 		var fail string
 		res := bubble(t, func() { fail, _ = runHR(c) })
 		res.rethrow()
@@ -243,7 +260,7 @@ func TestC09OctetFinding(t *testing.T) {
 		col.Case(c.String(), true, map[string]any{"case": c.String(), "result": clipStr(fail, 300)}, "plain-http-to-"+sess)
 		demoFinding(t, col, "C09", sigPlainToWS, fail != "", fmt.Sprintf("%v: %s", c, clipStr(fail, 400)))
 	}
-	for _, r := range []hrReq{{Method: "POST", Transport: "polling", Sid: "own", CT: "application/octet-stream", Body: 1}, {Method: "POST", Transport: "polling", Sid: "own", CT: "application/octet-stream", Body: 300, Chunked: true}} {
+	for _, r := range []hrReq{{Method: "POST", Transport: "polling", Sid: "own", CT: "application/octet-stream", Body: 1, BadChunk: -1}, {Method: "POST", Transport: "polling", Sid: "own", CT: "application/octet-stream", Body: 300, Chunked: true, BadChunk: -1}} {
 		c := hrCase{Sess: "polling", Rev: 4, Reqs: []hrReq{r}}
 		var fail string
 		res := bubble(t, func() { fail, _ = runHR(c) })
